@@ -788,11 +788,11 @@ fn gen_c13(rng: &mut Rng, tier: Tier, index: u64) -> Case {
             let s = InstRef::Local(slot);
             ops.push(Op::Call { inst: s, entry: ENTRIES[(n % 4) as usize], k: 1, input: InputSpec { seed: rng.next(), kind: InputKind::Impulse(rng.below(1 << 16) as u32) }, scratch_extra: 0, scratch_fill: Fill::Zero, out_fill: Fill::Zero, place: PLACES[(n % 4) as usize], dft_ref: true });
             ops.push(Op::Call { inst: s, entry: ENTRIES[((n + 1) % 4) as usize], k: 1 + ((n + walk) % 6) as u8, input: InputSpec { seed: rng.next(), kind: InputKind::Dense }, scratch_extra: 0, scratch_fill: Fill::Zero, out_fill: Fill::Zero, place: PLACES[((n + 2) % 4) as usize], dft_ref: true });
-            if n < 64 {
-                // the fixed-size kernels of every level (and their 2x-unrolled chunk loops): the other entry points too, 4-7 chunks
-                for e in 2..4u64 {
-                    ops.push(Op::Call { inst: s, entry: ENTRIES[((n + e) % 4) as usize], k: 4 + ((n + e + walk) % 4) as u8, input: InputSpec { seed: rng.next(), kind: InputKind::Dense }, scratch_extra: 0, scratch_fill: Fill::Zero, out_fill: Fill::Zero, place: PLACES[((n + e) % 4) as usize], dft_ref: true });
-                }
+            // the other two entry points as well (exact advertised scratch each): for the fixed-size kernels of every level
+            // with 4-7 chunks (their 2x-unrolled chunk loops), for longer transforms with one chunk
+            for e in 2..4u64 {
+                let k = if n < 64 { 4 + ((n + e + walk) % 4) as u8 } else { 1 };
+                ops.push(Op::Call { inst: s, entry: ENTRIES[((n + e) % 4) as usize], k, input: InputSpec { seed: rng.next(), kind: InputKind::Dense }, scratch_extra: 0, scratch_fill: Fill::Zero, out_fill: Fill::Zero, place: PLACES[((n + e) % 4) as usize], dft_ref: n < 64 });
             }
             slot += 1;
         }
